@@ -1398,7 +1398,7 @@ trait RecordD {
             lemma_count_lf_mono(self.f(), 0, self.position.byte as int);
             if self.state == State::Parsing { lemma_advance(self.f(), self.base(), self.b(), self.buf_pos); }
         }
-//@at depth=1 kw=let nth=0 expect="let mut \w+ = true;"
+//@at depth=1 kw=let nth=0 expect="let mut \w+ = \w+;"
         let ghost mut grow_at: int = -1;
         proof { lemma_ps_empty(self.b(), self.f(), old(self).cursor(), self.state == State::Finished); assert(rset.buf_positions@ =~= Seq::<BufferPosition>::empty()); }
 //@loop 0 kw=while
